@@ -86,6 +86,21 @@ CHECKS = {
              'co-execution); interpreter limits (recursion on deeply nested MIME containers) are outside the model.',
         technique='Rocq proof (state invariant, pigeonhole for fresh names) + differential co-execution against the Python code',
     ),
+    'C10': dict(
+        ref='5.10',
+        text='Theorems in coq/Properties/C10.v (partial): every range recorded when a paragraph is built is (first line with '
+             'content, last line) of one of its fields with a non-empty value; for a field with increasing line numbers both '
+             'ends are numbers of its own lines (so within 1..#lines), start <= end, no line of the field lies after end and no '
+             'line with content before start; line numbers increase strictly over all fields of all paragraphs (C05), so '
+             'ranges of different fields are disjoint and increasing; k blank lines at the top shift every line number of the '
+             'parsed groups by exactly k and change nothing else (the parser is proved parametric in the numbering). NOT '
+             'proved: how ranges compose through merged unknown paragraphs and folded licenses, and the shift law at the '
+             'level of the whole copyright object; these are decided by co-execution of the complete model (ranges included) '
+             'with copyright.py on texts biased to the recovery paths, each also with 1/2/5 blank lines prepended, and by the '
+             'executable statement (bounds, non-blank ends, words inside the range, disjoint and increasing, shift).',
+        note=TRUST,
+        technique='Rocq proof (partial) + differential co-execution and statement checking against the Python code',
+    ),
     'C15': dict(
         ref='5.15',
         text='Theorems in coq/Properties/C15.v for all relationship trees, names and candidates: simple relationships answer '
